@@ -1,5 +1,6 @@
 import GdslModel.Lemmas.Serde
 import GdslModel.Lemmas.Json
+import GdslModel.Lemmas.Cbor
 /-!
 # C13 — deserialising untrusted input (structural layer)
 The document is already parsed into the two lists the visitor sees (missing elements default to
@@ -70,5 +71,40 @@ theorem Json.truncated_is_error (d : Json.Doc) (h : Json.InRange d) (n : Nat) (h
 
 example : Json.deJson [91, 91, 91, 48, 44, 49, 93, 93, 44, 91, 91, 48, 44, 55, 44, 53, 93, 93, 93] = none := by decide
 example : (Json.deJson [91, 91, 91, 48, 44, 49, 93, 93, 44, 91, 91, 48, 44, 48, 44, 53, 93, 93, 93]).isSome = true := by decide
+
+/-! ## byte level (CBOR)
+`Cbor.deCbor` is a total function from byte strings as well. -/
+
+/-- an accepted byte string denotes a document whose payloads fit their types -/
+theorem Cbor.parse_inrange (bs : List Nat) (d : Cbor.Doc) (h : Cbor.parse bs = some d) : Json.InRange d :=
+  Cbor.parse_inrange' bs d h
+
+theorem Cbor.de_ok_wellformed (bs : List Nat) (ns : List (Nat × Int)) (s : Store Nat Nat)
+    (h : Cbor.deCbor bs = some (ns, s)) :
+    ∃ d, Cbor.parse bs = some d ∧ Mirror s ∧ (∀ p ∈ ns, p ∈ d.1) ∧
+      (∀ k, (s.get k).out = (d.2.filter (fun x => x.1 = k)).map (fun x => (x.2.1, x.2.2))) ∧
+      (∀ k, (s.get k).inn = (d.2.filter (fun x => x.2.1 = k)).map (fun x => (x.1, x.2.2))) :=
+  Cbor.de_ok_wellformed' bs ns s h
+
+theorem Cbor.de_error_iff (bs : List Nat) :
+    Cbor.deCbor bs = none ↔
+      Cbor.parse bs = none ∨ ∃ d, Cbor.parse bs = some d ∧ ∃ x ∈ d.2, (x.1 ∉ d.1.map (·.1)) ∨ (x.2.1 ∉ d.1.map (·.1)) :=
+  Cbor.de_error_iff' bs
+
+/-- a truncated document is an error: no proper prefix of a written document is accepted -/
+theorem Cbor.truncated_is_error (d : Cbor.Doc) (h : Json.InRange d) (hl : d.1.length < 2 ^ 64 ∧ d.2.length < 2 ^ 64)
+    (n : Nat) (hn : n < (Cbor.print d).length) :
+    Cbor.parse ((Cbor.print d).take n) = none :=
+  Cbor.truncated_is_error' d h hl n hn
+
+/-- bytes after a written document are an error -/
+theorem Cbor.trailing_is_error (d : Cbor.Doc) (h : Json.InRange d) (hl : d.1.length < 2 ^ 64 ∧ d.2.length < 2 ^ 64)
+    (b : Nat) (rest : List Nat) :
+    Cbor.parse (Cbor.print d ++ b :: rest) = none :=
+  Cbor.trailing_is_error' d h hl b rest
+
+-- a node list that declares 2^32-1 entries and then ends (the input of seeded change C13-3): an error, not a crash
+example : Cbor.deCbor [0x82, 0x9a, 0xff, 0xff, 0xff, 0xff, 0x82, 0x00, 0x01] = none := by decide +kernel
+example : (Cbor.deCbor [0x9f, 0x81, 0x82, 0x00, 0x18, 0x07, 0x9f, 0x83, 0xc1, 0x00, 0x19, 0x00, 0x00, 0x05, 0xff, 0xff]).isSome = true := by decide +kernel
 
 end G
